@@ -130,6 +130,134 @@ pub open spec fn redelegated(s0: St, s1: St, block: BlockInfo, sender: Addr, src
             && upd_post(w1, sm2, dst, block.time) && swf(sm2) && stake_changed(sm2, sw(s1), sender, dst, amount.amount.u as nat, false)
 }
 
+// ---- setup: staking parameters and validators
+pub proof fn lemma_deque_keys(k: Seq<u8>, d: Addr, v: Seq<char>)
+    ensures !starts_with(k_stake(d, v), lp(str_bytes("validators"@))), !starts_with(k_vinfo(v), lp(str_bytes("validators"@))), !starts_with(k_vmap(v), lp(str_bytes("validators"@))),
+        !starts_with(k_queue(), lp(str_bytes("validators"@))), !starts_with(k_sinfo(), lp(str_bytes("validators"@)))
+{
+    lemma_ns_facts();
+    reveal_strlit("validators");
+    axiom_str_bytes_ascii("validators"@);
+    let p = lp(str_bytes("validators"@));
+    assert(p.len() == 12 && p[0] == 0u8 && p[1] == 10u8);
+    assert(k_stake(d, v)[1] == 6u8);
+    assert(k_vinfo(v)[1] == 14u8);
+    assert(k_vmap(v)[1] == 13u8);
+    assert(k_queue()[0] == 117u8);
+    assert(k_sinfo()[0] == 115u8);
+    if starts_with(k_stake(d, v), p) { assert(k_stake(d, v).subrange(0, 12)[1] == p[1]); }
+    if starts_with(k_vinfo(v), p) { assert(k_vinfo(v).subrange(0, 12)[1] == p[1]); }
+    if starts_with(k_vmap(v), p) { assert(k_vmap(v).subrange(0, 12)[1] == p[1]); }
+    if starts_with(k_queue(), p) { assert(k_queue().subrange(0, 12)[0] == p[0]); }
+    if starts_with(k_sinfo(), p) { assert(k_sinfo().subrange(0, 12)[0] == p[0]); }
+}
+// a validator was added: its record stored under its own address, a fresh info record, every other typed entry as before
+pub open spec fn validator_added(w0: St, w1: St, val: Validator, now: Timestamp) -> bool {
+    &&& get_vobj(w0, val.address@) matches Ok(None)
+    &&& get_vobj(w1, val.address@) == Ok::<Option<Validator>, StdError>(Some(val))
+    &&& get_vinfo(w1, val.address@) matches Ok(Some(i)) && i.stakers@ == Set::<Addr>::empty() && i.stake.u == 0 && i.last_rewards_calculation == now
+    &&& forall|v2: Seq<char>, d: Addr| v2 != val.address@ ==> get_vobj(w1, v2) == get_vobj(w0, v2) && get_vinfo(w1, v2) == get_vinfo(w0, v2) && #[trigger] get_shares(w1, d, v2) == get_shares(w0, d, v2)
+    &&& forall|d: Addr| #[trigger] get_shares(w1, d, val.address@) == get_shares(w0, d, val.address@)
+    &&& get_queue(w1) == get_queue(w0) && get_sinfo(w1) == get_sinfo(w0)
+}
+
+//@ impl_open src/staking.rs :: StakeKeeper
+//@ end
+//@ fn src/staking.rs :: StakeKeeper :: setup
+//@   ret r
+//@   requires [C14.setup.pre_swf] swf(sw(old(storage).view()))
+//@   ensures [C14.setup.sem] r is Ok && only_staking(old(storage).view(), final(storage).view()) && get_sinfo(sw(final(storage).view())) == Ok::<Option<StakingInfo>, StdError>(Some(staking_info)) && forall|k: Seq<u8>| k != k_sinfo() ==> #[trigger] same_at(sw(final(storage).view()), sw(old(storage).view()), k)
+//@   ensures [C14.setup.swf] swf(sw(final(storage).view()))
+//@   begin let ghost s0 = storage.view(); proof { lemma_splice_same(storage.view(), lp(ns_staking())); axiom_cw_roundtrip(staking_info); }
+//@   before "re:^\\s*Ok\\(\\(\\)\\)\\s*$" proof { let wf = storage.view(); lemma_splice_window(s0, lp(ns_staking()), wf); assert(forall|k: Seq<u8>| k != k_sinfo() ==> #[trigger] same_at(wf, sw(s0), k)); lemma_sinfo_write_swf(sw(s0), wf); }
+//@ end
+//@ fn src/staking.rs :: StakeKeeper :: add_validator
+//@   ret r
+//@   requires [C14.addval.pre_swf] swf(sw(old(storage).view()))
+//@   requires [C14.addval.pre_commission] validator.commission.atomics <= dec_one()
+//@   ensures [C14.addval.duplicate] get_vobj(sw(old(storage).view()), validator.address@) matches Ok(Some(_)) ==> r is Err && final(storage).view() == old(storage).view()
+//@   ensures [C14.addval.sem] r is Ok ==> validator_added(sw(old(storage).view()), sw(final(storage).view()), validator, block.time)
+//@   ensures [C14.addval.swf,C15,C16] r is Ok ==> swf(sw(final(storage).view()))
+//@   ensures [C14.addval.only_staking] only_staking(old(storage).view(), final(storage).view())
+//@   begin let ghost s0 = storage.view(); proof { lemma_splice_same(storage.view(), lp(ns_staking())); axiom_cw_roundtrip(validator); assert forall|w: St| only_staking(s0, #[trigger] splice(s0, lp(ns_staking()), w)) by { lemma_splice_window(s0, lp(ns_staking()), w); } assert forall|w1: St, w2: St| #[trigger] splice(splice(s0, lp(ns_staking()), w1), lp(ns_staking()), w2) == splice(s0, lp(ns_staking()), w2) by { lemma_splice_twice(s0, lp(ns_staking()), w1, w2); } }
+//@   after "re:^\\s*VALIDATOR_MAP\\.save\\(&mut storage, &validator\\.address, &validator\\)\\?;\\s*$" let ghost w_a = storage.view();
+//@   after "re:^\\s*VALIDATORS\\.push_back\\(&mut storage, &validator\\)\\?;\\s*$" let ghost w_b = storage.view();
+//@   before "re:^\\s*Ok\\(\\(\\)\\)\\s*$" proof { let w1 = storage.view(); let i1 = choose|i1: ValidatorInfo| w1 == w_b.insert(k_vinfo(validator.address@), i1.ser()) && i1.stakers@ == Set::<Addr>::empty() && i1.stake.u == 0 && i1.last_rewards_calculation == block.time; lemma_addval(sw(s0), w_a, w_b, w1, validator, block.time, i1); lemma_splice_window(s0, lp(ns_staking()), w1); }
+//@ end
+}
+pub proof fn lemma_addval(w0: St, w_a: St, w_b: St, w1: St, val: Validator, now: Timestamp, i1: ValidatorInfo)
+    requires
+        swf(w0), get_vobj(w0, val.address@) matches Ok(None), val.commission.atomics <= dec_one(),
+        w_a == w0.insert(k_vmap(val.address@), val.ser()),
+        forall|k: Seq<u8>| !starts_with(k, lp(str_bytes("validators"@))) ==> #[trigger] same_at(w_b, w_a, k),
+        w1 == w_b.insert(k_vinfo(val.address@), i1.ser()),
+        i1.stakers@ == Set::<Addr>::empty() && i1.stake.u == 0 && i1.last_rewards_calculation == now,
+    ensures validator_added(w0, w1, val, now), swf(w1)
+{
+    let a = val.address@;
+    axiom_cw_roundtrip(val);
+    axiom_cw_roundtrip(i1);
+    lemma_keys_disjoint(arbitrary(), a, a);
+    lemma_deque_keys(arbitrary(), arbitrary(), a);
+    assert(same_at(w_b, w_a, k_vmap(a)));
+    assert(get_vobj(w1, a) == Ok::<Option<Validator>, StdError>(Some(val)));
+    assert forall|v2: Seq<char>, d: Addr| v2 != a implies get_vobj(w1, v2) == get_vobj(w0, v2) && get_vinfo(w1, v2) == get_vinfo(w0, v2) && #[trigger] get_shares(w1, d, v2) == get_shares(w0, d, v2) by {
+        lemma_deque_keys(arbitrary(), d, v2);
+        lemma_keys_disjoint(d, v2, a); lemma_keys_disjoint(d, v2, v2); lemma_keys_disjoint(d, a, v2);
+        if k_vmap(v2) == k_vmap(a) { lemma_k_vmap_inj(v2, a); }
+        if k_vinfo(v2) == k_vinfo(a) { lemma_k_vinfo_inj(v2, a); }
+        assert(same_at(w_b, w_a, k_vmap(v2))); assert(same_at(w_b, w_a, k_vinfo(v2))); assert(same_at(w_b, w_a, k_stake(d, v2)));
+    }
+    assert forall|d: Addr| #[trigger] get_shares(w1, d, a) == get_shares(w0, d, a) by {
+        lemma_deque_keys(arbitrary(), d, a);
+        lemma_keys_disjoint(d, a, a);
+        assert(same_at(w_b, w_a, k_stake(d, a)));
+    }
+    assert(same_at(w_b, w_a, k_queue())); assert(same_at(w_b, w_a, k_sinfo()));
+    assert(validator_added(w0, w1, val, now));
+    // the store invariant
+    assert forall|v2: Seq<char>, d2: Addr| #[trigger] has_staker(w1, v2, d2) implies has_shares(w1, d2, v2) by {
+        if v2 != a { assert(get_shares(w1, d2, v2) == get_shares(w0, d2, v2)); assert(has_staker(w0, v2, d2)); }
+    }
+    assert forall|d2: Addr, v2: Seq<char>| #[trigger] has_shares(w1, d2, v2) implies has_staker(w1, v2, d2) by {
+        if v2 == a { assert(get_shares(w1, d2, a) == get_shares(w0, d2, a)); } else { assert(get_shares(w1, d2, v2) == get_shares(w0, d2, v2)); }
+        assert(has_shares(w0, d2, v2));
+        assert(has_staker(w0, v2, d2));
+        assert(vinfo_has_vobj_at(w0, v2));
+    }
+    assert forall|v2: Seq<char>| #[trigger] vobj_ok_at(w1, v2) by {
+        if v2 != a { assert(get_shares(w1, arbitrary::<Addr>(), v2) == get_shares(w0, arbitrary::<Addr>(), v2)); assert(vobj_ok_at(w0, v2)); }
+    }
+    assert forall|v2: Seq<char>| #[trigger] vinfo_has_vobj_at(w1, v2) by {
+        if v2 != a { assert(get_shares(w1, arbitrary::<Addr>(), v2) == get_shares(w0, arbitrary::<Addr>(), v2)); assert(vinfo_has_vobj_at(w0, v2)); }
+    }
+}
+pub proof fn lemma_sinfo_write_swf(w: St, w2: St)
+    requires swf(w), forall|k: Seq<u8>| k != k_sinfo() ==> #[trigger] same_at(w2, w, k)
+    ensures swf(w2)
+{
+    assert forall|v2: Seq<char>, d2: Addr| #[trigger] has_staker(w2, v2, d2) implies has_shares(w2, d2, v2) by {
+        lemma_keys_disjoint(d2, v2, v2);
+        assert(same_at(w2, w, k_vinfo(v2))); assert(same_at(w2, w, k_stake(d2, v2)));
+        assert(has_staker(w, v2, d2));
+    }
+    assert forall|d2: Addr, v2: Seq<char>| #[trigger] has_shares(w2, d2, v2) implies has_staker(w2, v2, d2) by {
+        lemma_keys_disjoint(d2, v2, v2);
+        assert(same_at(w2, w, k_vinfo(v2))); assert(same_at(w2, w, k_stake(d2, v2)));
+        assert(has_shares(w, d2, v2));
+    }
+    assert forall|v2: Seq<char>| #[trigger] vobj_ok_at(w2, v2) by {
+        lemma_keys_disjoint(arbitrary(), v2, v2);
+        assert(same_at(w2, w, k_vmap(v2)));
+        assert(vobj_ok_at(w, v2));
+    }
+    assert forall|v2: Seq<char>| #[trigger] vinfo_has_vobj_at(w2, v2) by {
+        lemma_keys_disjoint(arbitrary(), v2, v2);
+        assert(same_at(w2, w, k_vmap(v2))); assert(same_at(w2, w, k_vinfo(v2)));
+        assert(vinfo_has_vobj_at(w, v2));
+    }
+}
+
 // ---- process_queue: pay out the matured unbondings
 // ASSUMPTION on the router (proved for the repo's Router + BankKeeper: C17 dispatch in group app, C09 splice in group
 // bank): executing a BANK message through the router does not touch the staking module's window of the store
@@ -211,6 +339,11 @@ pub proof fn lemma_queue_write_swf(w: St, w2: St)
         lemma_keys_disjoint(arbitrary(), v2, v2);
         assert(same_at(w2, w, k_vmap(v2)));
         assert(vobj_ok_at(w, v2));
+    }
+    assert forall|v2: Seq<char>| #[trigger] vinfo_has_vobj_at(w2, v2) by {
+        lemma_keys_disjoint(arbitrary(), v2, v2);
+        assert(same_at(w2, w, k_vmap(v2))); assert(same_at(w2, w, k_vinfo(v2)));
+        assert(vinfo_has_vobj_at(w, v2));
     }
 }
 // what process_queue did: a run from the stored queue, then the remaining queue is stored
@@ -343,6 +476,11 @@ pub proof fn lemma_rm_rewards_swf(sm: St, wf: St, d: Addr, v: Seq<char>)
         lemma_keys_disjoint(d, v, v2);
         assert(same_at(wf, sm, k_vmap(v2)));
         assert(vobj_ok_at(sm, v2));
+    }
+    assert forall|v2: Seq<char>| #[trigger] vinfo_has_vobj_at(wf, v2) by {
+        lemma_keys_disjoint(d, v, v2);
+        assert(same_at(wf, sm, k_vmap(v2))); assert(same_at(wf, sm, k_vinfo(v2)));
+        assert(vinfo_has_vobj_at(sm, v2));
     }
 }
 
